@@ -178,6 +178,64 @@ def search_string_evaluation(ctx, rep, rule="R06n"):
                 key=f"{rule}|{qual}", nontrivial=n > 0)
 
 
+
+def row_totality_obligations(ctx, rep, rule="R06p"):
+    """Every protocol renders every entry of a listing - also one without a type (a link-file block with no Type= line is served as
+    type 0 by Gopher): the HTML and WML row renderers are evaluated for the types 0, 1, i, 7 and none; they return a row that
+    carries the name, they do not raise."""
+    from ..paths import Const, PathLimit, Walker
+
+    prog = ctx.prog
+    n_r = 0
+    for qual in ("protocols.http.HTTPProtocol", "protocols.wap.WAPProtocol"):
+        P = ctx.cls(qual)
+        f = prog.resolve_method(P, "getrenderstr") if P else None
+        if f is None or len(f.params) < 3:
+            continue
+        n_r += 1
+        problems, n = [], 0
+        for typ in ("0", "1", "i", "7", None):
+            vals = {"type": typ, "name": "The <name>", "selector": "/s", "mimetype": "text/plain"}
+            holder = {}
+
+            def cv(call, target, st, _v=vals):
+                fn = call.func
+                if isinstance(fn, ast.Attribute) and isinstance(fn.value, ast.Name) and fn.value.id == f.params[1] and fn.attr.startswith("get") and fn.attr[3:] in _v:
+                    v = _v[fn.attr[3:]]
+                    a = holder["w"].cur_args or []
+                    return Const(v) if v is not None or not a else a[0]
+                if isinstance(fn, ast.Attribute) and fn.attr == "getimgtag":
+                    return Const("<IMG>")
+                return None
+
+            facts = {"self.accesskeyidx": Const(0), "self.postfieldidx": Const(0), "self.waptop": Const("/wap")}
+            w = Walker(prog, ctx.resolver, call_value=cv, exact_loops=True, unroll=4, max_paths=800, assumptions=dict(facts),
+                       inline=lambda fn, t, d: d < 3 and (t.bound_cls is not None or (fn.cls is None and fn.module.name.startswith("pygopherd.protocols")))
+                       and fn.name != "getimgtag")
+            holder["w"] = w
+            outs = set()
+            try:
+                for p in w.run(f, P, env={f.params[1]: Const("<entry>"), f.params[2]: Const("/s")}, facts=dict(facts)):
+                    if p.kind == "raise":
+                        outs.add("raises " + str(p.value))
+                    elif p.kind == "return" and p.value is not None and p.value.kind == "const" and isinstance(p.value.value, str):
+                        outs.add("row" if "The &lt;name&gt;" in p.value.value else "row without the name")
+                    else:
+                        outs.add("?")
+            except (PathLimit, Exception):
+                outs = {"?"}
+            if len(outs) != 1 or "?" in outs:
+                continue
+            n += 1
+            got = next(iter(outs))
+            if got != "row":
+                problems.append(f"for an entry of type {typ!r} the row renderer {got}: the listing stops (or loses the entry) in this protocol only")
+        rep.add(rule, f"{f.qualname}: a row for every entry, typeless ones included [{n} of 5 evaluated]", not problems and n >= 3, ctx.where(f),
+                "; ".join(problems[:2]) if problems else ("" if n >= 3 else "the walker could not follow the renderer"), key=f"{rule}|{qual}", nontrivial=n > 0)
+    if not n_r:
+        rep.fail(rule, "getrenderstr", detail="row renderers not found")
+
+
 def check(ctx, rep):
     prog = ctx.prog
     eff = Effects(prog, ctx.resolver)
@@ -239,6 +297,9 @@ def check(ctx, rep):
                         key=f"R06m|{f_.qualname}|{c_.func.attr}")
     if not n_body:
         rep.fail("R06m", "request body reads", detail="no protocol reads a request body")
+    rep.rule("R06p", "the HTML and WML row renderers return a row for every entry - types 0, 1, i, 7 and none (evaluated): what Gopher lists, "
+             "they list", floor=1)
+    row_totality_obligations(ctx, rep, "R06p")
     rep.rule("R06o", "= R02h: request lines are claimed by the protocol whose documented shape they have - a plain Gopher search whose string begins "
              "with `!`, `+` or `$` stays a search (it is not a Gopher+ request)", floor=1)
     from .c02 import classification_obligations
